@@ -5,6 +5,7 @@ package main
 import (
 	"fmt"
 	"go/ast"
+	"go/printer"
 	"go/token"
 	"strings"
 )
@@ -173,6 +174,69 @@ func c04SwitchReturnTable(fd *ast.FuncDecl, what string) (rows [][]string, rets 
 		rets = append(rets, ret)
 	}
 	return
+}
+
+func c04NodeString(n ast.Node) string {
+	var sb strings.Builder
+	printer.Fprint(&sb, fset, n)
+	return sb.String()
+}
+
+// c04WalkConds visits every node of a body together with the conditions of
+// the enclosing `if` statements and `case` clauses (outermost first).
+func c04WalkConds(n ast.Node, conds []string, visit func(ast.Node, []string)) {
+	switch x := n.(type) {
+	case nil:
+		return
+	case *ast.BlockStmt:
+		for _, st := range x.List {
+			c04WalkConds(st, conds, visit)
+		}
+	case *ast.IfStmt:
+		if x.Init != nil {
+			c04WalkConds(x.Init, conds, visit)
+		}
+		cond := strings.Join(strings.Fields(exprString(x.Cond)), " ")
+		c04WalkConds(x.Body, append(append([]string{}, conds...), cond), visit)
+		if x.Else != nil {
+			c04WalkConds(x.Else, append(append([]string{}, conds...), "!("+cond+")"), visit)
+		}
+	case *ast.SwitchStmt:
+		tag := ""
+		if x.Tag != nil {
+			tag = exprString(x.Tag)
+		}
+		for _, c := range x.Body.List {
+			cc := c.(*ast.CaseClause)
+			var names []string
+			for _, e := range cc.List {
+				names = append(names, exprString(e))
+			}
+			label := "switch " + tag + " default"
+			if cc.List != nil {
+				label = "switch " + tag + " case " + strings.Join(names, ",")
+			}
+			for _, st := range cc.Body {
+				c04WalkConds(st, append(append([]string{}, conds...), label), visit)
+			}
+		}
+	case *ast.ForStmt:
+		c04WalkConds(x.Body, conds, visit)
+	case *ast.RangeStmt:
+		c04WalkConds(x.Body, conds, visit)
+	default:
+		visit(n, conds)
+		ast.Inspect(n, func(m ast.Node) bool {
+			if m == nil || m == n {
+				return true
+			}
+			if _, isFn := m.(*ast.FuncLit); isFn {
+				return false
+			}
+			visit(m, conds)
+			return true
+		})
+	}
 }
 
 func genC04() {
@@ -429,6 +493,106 @@ func genC04() {
 		}
 		l.p("/-- the expression that defines `spendWitnessType` in each account-spending manager method -/")
 		l.p("def spendWitnessTypeSource : List (String × String) := [%s]", strings.Join(rows, ", "))
+	}
+
+	// --- account.Modifier bodies (account/interfaces.go) ---------------------------------
+	{
+		var rows []string
+		for _, fn := range []string{"StateModifier", "ValueModifier", "ExpiryModifier", "IncrementBatchKey",
+			"OutPointModifier", "HeightHintModifier", "LatestTxModifier", "VersionModifier"} {
+			fd := findFunc(acct, fn)
+			var stmts []string
+			found := false
+			if fd != nil {
+				for _, st := range fd.Body.List {
+					ret, ok := st.(*ast.ReturnStmt)
+					if !ok || len(ret.Results) != 1 {
+						// anything besides `return func…` is part of the behaviour too
+						stmts = append(stmts, "outer: "+strings.Join(strings.Fields(c04NodeString(st)), " "))
+						continue
+					}
+					fl, ok := ret.Results[0].(*ast.FuncLit)
+					if !ok {
+						continue
+					}
+					found = true
+					for _, b := range fl.Body.List {
+						stmts = append(stmts, strings.Join(strings.Fields(c04NodeString(b)), " "))
+					}
+				}
+			}
+			if !found {
+				fail("C04: modifier %s not recognised", fn)
+			}
+			rows = append(rows, fmt.Sprintf("(%q, %s)", fn, leanStrList(stmts)))
+		}
+		l.p("/-- statements of the closure each account.Modifier constructor returns -/")
+		l.p("def modifierBodies : List (String × List String) := [%s]", strings.Join(rows, ", "))
+	}
+
+	// --- what the batch storer stages for a re-created account vs what the verifier applied ---------
+	{
+		ord := pkgFiles("order")
+		var storer, verifier []string
+		if fd := findFunc(ord, "batchStorer.StorePendingBatch"); fd != nil {
+			c04WalkConds(fd.Body, nil, func(n ast.Node, conds []string) {
+				call, ok := n.(*ast.CallExpr)
+				if !ok {
+					return
+				}
+				name := exprString(call.Fun)
+				if !strings.HasPrefix(name, "account.") || !(strings.HasSuffix(name, "Modifier") || name == "account.IncrementBatchKey") {
+					return
+				}
+				arg := ""
+				if len(call.Args) == 1 {
+					arg = strings.Join(strings.Fields(exprString(call.Args[0])), " ")
+					if strings.HasPrefix(arg, "wire.OutPoint{") {
+						arg = "wire.OutPoint{…}"
+					}
+				}
+				var labels, others []string
+				for _, c := range conds {
+					if strings.HasPrefix(c, "switch ") {
+						labels = append(labels, c)
+					} else {
+						others = append(others, c)
+					}
+				}
+				storer = append(storer, fmt.Sprintf("(%q, %q, %q, %q)", strings.Join(labels, " ; "),
+					strings.Join(others, " ; "), strings.TrimPrefix(name, "account."), arg))
+			})
+		} else {
+			fail("C04: batchStorer.StorePendingBatch not found")
+		}
+		if fd := findFunc(ord, "batchVerifier.Verify"); fd != nil {
+			c04WalkConds(fd.Body, nil, func(n ast.Node, conds []string) {
+				as, ok := n.(*ast.AssignStmt)
+				if !ok || len(as.Lhs) != 1 || as.Tok != token.ASSIGN {
+					return
+				}
+				lhs := exprString(as.Lhs[0])
+				if !strings.HasPrefix(lhs, "acct.") {
+					return
+				}
+				// only the innermost condition matters here (the enclosing loop / error checks carry none)
+				cond := ""
+				if len(conds) > 0 {
+					cond = conds[len(conds)-1]
+				}
+				verifier = append(verifier, fmt.Sprintf("(%q, %q, %q)", cond, lhs,
+					strings.Join(strings.Fields(exprString(as.Rhs[0])), " ")))
+			})
+		} else {
+			fail("C04: batchVerifier.Verify not found")
+		}
+		if len(storer) == 0 || len(verifier) == 0 {
+			fail("C04: storer / verifier account updates not recognised")
+		}
+		l.p("/-- batchStorer.StorePendingBatch: (enclosing switch case, enclosing if-conditions, modifier, argument) in source order -/")
+		l.p("def storerModifiers : List (String × String × String × String) := [%s]", strings.Join(storer, ", "))
+		l.p("/-- batchVerifier.Verify: (condition, field of the loaded account, value) it assigns before checking the re-created output -/")
+		l.p("def verifierAccountUpdates : List (String × String × String) := [%s]", strings.Join(verifier, ", "))
 	}
 
 	// --- createSpendTx: the account input literal sets no Sequence ------------
